@@ -818,6 +818,7 @@ def run(ctx):
                    "correspondence", not sbad,
                    "\n".join(f"{sreqs[i][:300]} :: {w}" for i, w in sbad[:5]))
 
+    dft_pair_check(ctx, rng, nprng, quick)
     # ======================================================================
     # oracle on the unpatched code
     # ======================================================================
@@ -853,6 +854,44 @@ def float_compare(requests, impl):
                     bad.append((i, f"{v} vs {zz}"))
                     break
     return bad
+
+
+def dft_pair_check(ctx, rng, nprng, quick):
+    """the trusted fact behind the spectrum theorems: numpy.fft.rfft / irfft(n=) are, up to
+    rounding, the pair `DFT.rfft` / `DFT.irfft` of Lemmas/SurrogatesDFT.lean — the documented sum
+    and the inverse DFT of the Hermitian extension that drops the imaginary parts of the DC and
+    Nyquist bins.  Compared with the explicit O(n^2) sums."""
+    bad, cnt = [], 0
+    for c in range(80 if quick else 600):
+        n = rng.choice([1, 2, 3, 4, 5, 6, 7, 8, 9, 12, 15, 16, 21, 32, 33])
+        x = nprng.randn(n) * 2.0 ** rng.choice([0, 0, -30, 30, 300])
+        t = np.arange(n)
+        m = n // 2 + 1
+        F = np.array([np.sum(x * np.exp(-2j * np.pi * t * f / n)) for f in range(m)])
+        G = np.fft.rfft(x)
+        sc = float(np.abs(F).max())
+        if G.shape != F.shape or not np.all(np.abs(F - G) <= TOL * sc):
+            bad.append(f"rfft n={n}")
+        Z = (nprng.randn(m) + 1j * nprng.randn(m)) * 2.0 ** rng.choice([0, -30, 30])
+        W = np.zeros(n, dtype=complex)
+        for k in range(n):
+            if 2 * k < n:
+                W[k] = Z[0].real if k == 0 else Z[k]
+            elif 2 * k == n:
+                W[k] = Z[k].real
+            else:
+                W[k] = np.conj(Z[n - k])
+        y = np.array([np.sum(W * np.exp(2j * np.pi * t * tt / n)) / n for tt in range(n)])
+        z = np.fft.irfft(Z, n=n)
+        sc = float(np.abs(y).max())
+        if z.shape != (n,) or not np.all(np.abs(y.real - z) <= TOL * sc) or \
+                not np.all(np.abs(y.imag) <= TOL * sc):
+            bad.append(f"irfft n={n}")
+        cnt += 1
+    ctx.obligation(f"numpy.fft.rfft / irfft(n=) == the DFT pair of Lemmas/SurrogatesDFT.lean (explicit "
+                   f"sums, {cnt} random arrays of length 1-33, relative tolerance {TOL})",
+                   "correspondence", not bad, ", ".join(bad[:8]))
+    ctx.count("dft-pair-arrays", cnt)
 
 
 def check_perm(ctx, name, out, data, replay):
@@ -893,18 +932,27 @@ def oracle(ctx, Surrogates, RecurrencePlot, rng, nprng, quick):
                                     kinds=("int", "dyadic", "float", "float", "periodic",
                                            "constant", "two-level"))
         if c == 0:
-            kind, data = "constant", np.full((2, 8), 1.5)
+            kind, data, tags = "constant", np.full((2, 8), 1.5), []
         if c == 1:
-            kind, data = "single", np.array([[2.0]])
+            kind, data, tags = "single", np.array([[2.0]]), []
+        if c == 2:
+            # the public test-data wrapper (6 series of length 200)
+            with quiet():
+                kind, data, tags = "SmallTestData", Surrogates.SmallTestData().original_data, []
         N, n = data.shape
+        for t in tags:
+            ctx.count("oracle-caller-array:" + t.split(":")[0])
         seed = rng.randrange(2 ** 31)
         np.random.seed(seed)
         pyrandom.seed(seed)
-        s = Surrogates(data.copy(), silence_level=3)
-        pristine = data.copy()
+        s = Surrogates(clone(data), silence_level=3)
+        pristine = np.array(data)
         hist = []
         for call in range(rng.choice([1, 2, 3, 4])):
-            g = rng.choice(["white", "fourier", "aaft", "refined", "refined_s", "twin", "normalize"])
+            g = rng.choice(["white", "fourier", "aaft", "refined", "refined_s", "twin", "twin",
+                            "normalize"])
+            if g == "normalize" and data.dtype.kind != "f":
+                g = "white"          # in-place normalisation is defined for float arrays
             hist.append(g)
             if g == "normalize":
                 # the documented mutator: from now on the guarantees refer to the normalised data
@@ -913,10 +961,11 @@ def oracle(ctx, Surrogates, RecurrencePlot, rng, nprng, quick):
                 pristine = s.original_data.copy()
                 ctx.count("oracle:normalize")
                 continue
-            rep = {"data": pristine.tolist(), "numpy_and_random_seed": seed, "history": list(hist)}
+            rep = {"data": pristine.tolist(), "dtype": str(data.dtype), "layout": tags,
+                   "numpy_and_random_seed": seed, "history": list(hist)}
             ctx.count(f"oracle:{g}")
             try:
-                with quiet():
+                with quiet(), np.errstate(all="ignore"):
                     if g == "white":
                         check_perm(ctx, "white_noise_surrogates", s.white_noise_surrogates(),
                                    pristine, rep)
@@ -950,17 +999,61 @@ def oracle(ctx, Surrogates, RecurrencePlot, rng, nprng, quick):
                                           sp, pristine, rep, bins="all"):
                             pass
                     else:
-                        dim = rng.choice([1, 2, 3])
-                        delay = rng.choice([0, 1, 2])
+                        dim = rng.choice([1, 2, 3, 4])
+                        delay = rng.choice([0, 1, 2, 4])
                         if (dim - 1) * delay > n:
                             dim, delay = 1, 0
-                        thr = rng.choice([0.0, 0.125, 0.5, 1.0, 2.0, 0.3, 0.7])
-                        md = rng.choice([0, 1, 2, 7])
+                        thr = rng.choice([0.0, 0.125, 0.5, 1.0, 2.0, 0.3, 0.7, 1e6])
+                        md = rng.choice([0, 1, 2, 7, None, n + 3])
+                        md_eff = 7 if md is None else md
+                        kwa = {} if md is None else {"min_dist": md}
                         rep.update(dimension=dim, delay=delay, threshold=thr, min_dist=md)
-                        out = s.twin_surrogates(dim, delay, thr, md)
-                        tw = s.twins(thr, md)
-                        check_twin_surrogates(ctx, "Surrogates", out, tw, pristine, dim, delay,
-                                              thr, md, rep)
+                        path = rng.choice(["method", "method", "wrappers", "scaled"])
+                        ctx.count(f"oracle:twin:{path}")
+                        if path == "wrappers":
+                            # the public pieces one by one: static embedding, the embedding setter,
+                            # twins(), the static recurrence plot; then a second embedding on the
+                            # same object, which twins() must follow
+                            for (d2, l2) in [(dim, delay), (1, 0)]:
+                                emb = Surrogates.embed_time_series_array(s.original_data, d2, l2)
+                                s.embedding = emb
+                                tw = s.twins(thr, **kwa)
+                                rep.update(dimension=d2, delay=l2, path="embedding setter + twins()")
+                                check_twins(ctx, "Surrogates", tw, pristine, d2, l2, thr, md_eff, rep)
+                                nT = n - (d2 - 1) * l2
+                                for i in range(N):
+                                    Rm = Surrogates.recurrence_plot(emb[i], thr)
+                                    Rb = brute_R(np.asarray(emb[i], dtype=float).reshape(nT, d2),
+                                                 float(np.float32(thr)))
+                                    if not np.array_equal(np.asarray(Rm).astype(bool), Rb):
+                                        ctx.fail({"kind": "recurrence-plot", "class": "Surrogates"},
+                                                 "Surrogates.recurrence_plot differs from the supremum-"
+                                                 "norm definition", dict(rep, series=i))
+                                        break
+                        else:
+                            out = s.twin_surrogates(dim, delay, thr, **kwa)
+                            tw = s.twins(thr, **kwa)
+                            check_twin_surrogates(ctx, "Surrogates", out, tw, pristine, dim, delay,
+                                                  thr, md_eff, rep)
+                            if path == "scaled" and data.dtype == np.float64:
+                                # exact power-of-two rescaling of data and threshold: same twins,
+                                # and with the same random stream the rescaled surrogate
+                                e = rng.choice([-100, -30, 30, 100])
+                                big = float(np.abs(pristine).max()) if pristine.size else 0.0
+                                if big < 2.0 ** 20 and (big == 0 or
+                                                        float(np.abs(pristine[pristine != 0]).min())
+                                                        > 2.0 ** -20) and thr < 1e5:
+                                    s2 = Surrogates(pristine * 2.0 ** e, silence_level=3)
+                                    pyrandom.seed(seed + 1)
+                                    o1 = s.twin_surrogates(dim, delay, thr, **kwa)
+                                    pyrandom.seed(seed + 1)
+                                    o2 = s2.twin_surrogates(dim, delay, thr * 2.0 ** e, **kwa)
+                                    t2 = s2.twins(thr * 2.0 ** e, **kwa)
+                                    if t2 != tw or not np.array_equal(o1 * 2.0 ** e, o2):
+                                        ctx.fail({"kind": "twins-not-scale-invariant", "class": "Surrogates"},
+                                                 f"rescaling data and threshold by 2^{e} changes the twins "
+                                                 "or the surrogate drawn with the same random stream",
+                                                 dict(rep, exponent=e))
             except Exception as e:  # noqa
                 ctx.fail({"kind": "raises", "method": g, "error": type(e).__name__},
                          f"{g} raised {type(e).__name__}: {e}", rep)
@@ -974,32 +1067,18 @@ def oracle(ctx, Surrogates, RecurrencePlot, rng, nprng, quick):
     nrp = 200 if quick else 2000
     for c in range(nrp):
         n = rng.choice([2, 3, 5, 8, 13, 21, 30])
-        kind = rng.choice(["periodic", "int", "float"])
-        if kind == "periodic":
-            per = rng.choice([2, 3, 4, 5])
-            base = [rng.randrange(0, 4) for _ in range(per)]
-            ts = np.array([base[t % per] for t in range(n)], dtype=float)
-        elif kind == "int":
-            ts = np.array([rng.randrange(0, 3) for _ in range(n)], dtype=float)
-        else:
-            ts = nprng.rand(n)
-        dim = rng.choice([1, 2, 3])
-        tau = rng.choice([1, 2])
-        if (dim - 1) * tau >= n:
-            dim, tau = 1, 1
-        md = rng.choice([0, 1, 2, 7])
+        ts, kind, dim, tau, kw, variant = gen_rp(rng, n, floats=nprng)
+        md = rng.choice([0, 1, 2, 7, n + 1])
         ns = rng.choice([1, 2, 3])
-        variant = rng.choice(["threshold", "recurrence_rate", "local_recurrence_rate"])
-        kw = {"threshold": rng.choice([0.125, 0.5, 1.0])} if variant == "threshold" else \
-            {variant: rng.choice([0.2, 0.4, 0.6])}
         seed = rng.randrange(2 ** 31)
         pyrandom.seed(seed)
-        rep = {"time_series": ts.tolist(), "dim": dim, "tau": tau, "min_dist": md,
-               "n_surrogates": ns, "metric": "supremum", **kw}
+        rep = {"time_series": ts.tolist(), "dtype": str(ts.dtype), "min_dist": md,
+               "n_surrogates": ns, **kw}
         ctx.count(f"oracle:rp:{variant}")
+        ctx.count(f"oracle:rp:metric={kw['metric']}")
         try:
-            with quiet():
-                rp = RecurrencePlot(ts, dim=dim, tau=tau, metric="supremum", silence_level=3, **kw)
+            with quiet(), np.errstate(all="ignore"):
+                rp = RecurrencePlot(ts, silence_level=3, **kw)
                 for call in range(rng.choice([1, 2, 3])):
                     R = np.array(rp.recurrence_matrix()).astype(bool)
                     NN = R.shape[0]
@@ -1027,17 +1106,20 @@ def oracle(ctx, Surrogates, RecurrencePlot, rng, nprng, quick):
             ctx.fail({"kind": "raises", "class": "RecurrencePlot", "method": "twin_surrogates",
                       "error": type(e).__name__},
                      f"RecurrencePlot.twins/twin_surrogates raised {type(e).__name__}: {e}", rep)
-        ctx.case(("oracle-rp", ts.tobytes().hex(), dim, tau, md, ns, str(kw), seed), n >= 5)
+        ctx.case(("oracle-rp", ts.tobytes().hex(), md, ns, str(kw), seed), n >= 5)
 
 
-def check_twin_surrogates(ctx, cls, out, tw, data, dim, delay, thr, md, rep):
+def check_twins(ctx, cls, tw, data, dim, delay, thr, md, rep):
+    """twins() against the definition on a brute-force recurrence matrix; returns the expected
+    lists per series, or None after reporting"""
+    data = np.asarray(data, dtype=float)
     N, n = data.shape
     nT = n - (dim - 1) * delay
-    out = np.asarray(out)
-    if out.shape != (N, nT):
-        ctx.fail({"kind": "shape", "method": "twin_surrogates"}, f"shape {out.shape}", rep)
-        return
     thr32 = float(np.float32(thr))
+    exps = []
+    if len(tw) != N:
+        ctx.fail({"kind": "shape", "method": "twins"}, f"{len(tw)} twin tables for {N} series", rep)
+        return None
     for i in range(N):
         emb = np.array([[data[i, k + l * delay] for l in range(dim)] for k in range(nT)]) \
             .reshape(nT, dim)
@@ -1048,7 +1130,23 @@ def check_twin_surrogates(ctx, cls, out, tw, data, dim, delay, thr, md, rep):
                      "Surrogates.twins differs from: separated by more than min_dist, identical "
                      "recurrence neighbourhoods, more than one neighbour",
                      dict(rep, series=i, expected=exp, observed=tw[i]))
-            return
+            return None
+        exps.append((emb, exp))
+    return exps
+
+
+def check_twin_surrogates(ctx, cls, out, tw, data, dim, delay, thr, md, rep):
+    data = np.asarray(data, dtype=float)
+    N, n = data.shape
+    nT = n - (dim - 1) * delay
+    out = np.asarray(out)
+    if out.shape != (N, nT):
+        ctx.fail({"kind": "shape", "method": "twin_surrogates"}, f"shape {out.shape}", rep)
+        return
+    exps = check_twins(ctx, cls, tw, data, dim, delay, thr, md, rep)
+    if exps is None:
+        return
+    for i, (emb, exp) in enumerate(exps):
         ok, j = trajectory_ok(out[i].reshape(-1, 1), emb[:, :1], exp, nT)
         if not ok:
             ctx.fail({"kind": "twin-walk", "class": cls},
